@@ -56,6 +56,7 @@ import (
 	commonconstants "github.com/lindb/common/constants"
 	"github.com/lindb/lindb/flow"
 	"github.com/lindb/lindb/kv"
+	"github.com/lindb/lindb/kv/table"
 	"github.com/lindb/lindb/kv/version"
 	"github.com/lindb/lindb/models"
 	"github.com/lindb/lindb/pkg/encoding"
@@ -157,6 +158,20 @@ type step struct {
 	Families []int   `json:"families,omitempty"` // flush/rollup: family indexes; empty = all
 	Force    bool    `json:"force,omitempty"`    // rollup through Store.ForceRollup (all families of the store, concurrently)
 	Crash    string  `json:"crash,omitempty"`    // rollup: take a crash image at this point of the rollup
+	// rollup (one job after the other): source-side steps that run while a job is merging into the
+	// target (harness-owned interleaving, see inject)
+	Inject []inject `json:"inject,omitempty"`
+}
+
+// inject: while the rollup job of source family JobFam runs, at the moment its At-th output
+// table in a target family has been created, write Points into source family Fam and flush
+// that family (metadata, index, data) on the job's goroutine. The new source file is not an
+// input of the running job.
+type inject struct {
+	JobFam int     `json:"jobFam"`
+	At     int     `json:"at"`
+	Fam    int     `json:"fam"`
+	Points []point `json:"points"`
 }
 
 type plan struct {
@@ -263,7 +278,7 @@ func genPlan(t *rapid.T) *plan {
 	p.NSeries = rapid.IntRange(1, 5).Draw(t, "nSeries")
 
 	// steps
-	g := &stepGen{t: t, p: p, last: map[string]int{}, mem: map[int]bool{}, pend: map[int]bool{}}
+	g := &stepGen{t: t, p: p, last: map[string]int{}, mem: map[int]bool{}, pend: map[int]bool{}, onlyFam: -1}
 	nSteps := rapid.IntRange(3, 10).Draw(t, "nSteps")
 	first := step{Kind: "write"}
 	if primeSeries {
@@ -284,7 +299,11 @@ func genPlan(t *rapid.T) *plan {
 				s.Crash = g.crashKind()
 				crashUsed = true
 			}
+			jobs := g.pendingOf(s.Families)
 			g.rolled(s.Families)
+			if s.Crash == "" && !s.Force && len(jobs) > 0 && rapid.IntRange(0, 2).Draw(t, "injectHere") == 0 {
+				s.Inject = g.injections(jobs)
+			}
 			p.Steps = append(p.Steps, s)
 		default:
 			g.reopened()
@@ -296,6 +315,10 @@ func genPlan(t *rapid.T) *plan {
 		p.Steps = append(p.Steps, g.flush())
 		if !crashUsed && g.hasPending(nil) && rapid.Bool().Draw(t, "crashAtFinal") {
 			final.Crash = g.crashKind()
+		}
+		if jobs := g.pendingOf(nil); final.Crash == "" && len(jobs) > 0 && rapid.IntRange(0, 3).Draw(t, "injectAtFinal") == 0 {
+			g.rolled(nil)
+			final.Inject = g.injections(jobs)
 		}
 		p.Steps = append(p.Steps, final)
 		if rapid.Bool().Draw(t, "finalAgain") {
@@ -327,6 +350,7 @@ type stepGen struct {
 	last map[string]int
 	// families with rows in memory / with flushed files that wait for rollup (to place the crash image)
 	mem, pend map[int]bool
+	onlyFam   int // >= 0: write() puts every cluster into this family
 }
 
 func (g *stepGen) hasPending(fams []int) bool {
@@ -339,6 +363,49 @@ func (g *stepGen) hasPending(fams []int) bool {
 		}
 	}
 	return false
+}
+
+// pendingOf lists the selected families that have files waiting for rollup (their jobs will merge).
+func (g *stepGen) pendingOf(fams []int) (rs []int) {
+	for f := range g.p.Families {
+		sel := len(fams) == 0
+		for _, x := range fams {
+			sel = sel || x == f
+		}
+		if sel && g.pend[f] {
+			rs = append(rs, f)
+		}
+	}
+	return rs
+}
+
+// injections draws 1-2 source-side steps that run inside the rollup jobs of the given families.
+func (g *stepGen) injections(jobs []int) (rs []inject) {
+	t := g.t
+	n := 1
+	if g.p.Month > 0 && g.p.Year > 0 && rapid.IntRange(0, 2).Draw(t, "secondInjection") == 0 {
+		n = 2 // a job with two targets creates two output tables
+	}
+	job := rapid.SampledFrom(jobs).Draw(t, "injectJob")
+	for at := 0; at < n; at++ {
+		in := inject{JobFam: job, At: at, Fam: job}
+		if n == 1 && g.p.Month > 0 && g.p.Year > 0 && rapid.Bool().Draw(t, "injectAtSecondTable") {
+			in.At = 1
+		}
+		if rapid.IntRange(0, 3).Draw(t, "injectOtherFamily") == 0 {
+			in.Fam = rapid.IntRange(0, len(g.p.Families)-1).Draw(t, "injectFam")
+		}
+		g.onlyFam = in.Fam
+		w := g.commit(g.write())
+		g.onlyFam = -1
+		if len(w.Points) == 0 {
+			continue
+		}
+		in.Points = w.Points
+		g.flushed([]int{in.Fam})
+		rs = append(rs, in)
+	}
+	return rs
 }
 
 func (g *stepGen) rolled(fams []int) {
@@ -477,7 +544,10 @@ func (g *stepGen) write() step {
 	slotsPerHour := int(hour / p.Source)
 	nClusters := rapid.IntRange(1, 3).Draw(t, "nClusters")
 	for c := 0; c < nClusters; c++ {
-		fam := rapid.IntRange(0, len(p.Families)-1).Draw(t, "fam")
+		fam := g.onlyFam
+		if fam < 0 {
+			fam = rapid.IntRange(0, len(p.Families)-1).Draw(t, "fam")
+		}
 		w := rapid.SampledFrom([]int{0, windows - 1, -1}).Draw(t, "window")
 		if w < 0 {
 			w = rapid.IntRange(0, windows-1).Draw(t, "anyWindow")
@@ -609,6 +679,7 @@ type famState struct {
 	pending []filePoints // flushed, waiting for rollup (one source file each)
 	rolled  []filePoints
 	rollups int // rollup jobs run on this family
+	idx     int // index into plan.Families
 }
 
 // expected computes the expected cells of one target from the given source files.
@@ -932,6 +1003,97 @@ func waitRollup(f kv.Family) {
 	}
 }
 
+// ---- harness-owned interleaving: source write + flush inside a running rollup job -----------------
+
+// The table seam reports every table file that is created. While armed, the injector counts
+// the output tables that the running rollup job creates in TARGET families and hands the count
+// to the case. At that seam the job's goroutine holds no lock (family.newTableBuilder has
+// returned the file number and registered the pending output; the version set mutex of the
+// target store is only taken later, for the commit) and nothing of the source store at all:
+// doRollupWork only keeps a snapshot (a retained version) of the source family. A source-side
+// write + flush (memdb, metadata and index stores, source kv store) therefore cannot block on
+// anything the job holds.
+type injector struct {
+	mu    sync.Mutex
+	armed bool
+	root  string
+	count int
+	fire  func(n int)
+}
+
+var theInjector = &injector{}
+
+func (in *injector) hook(op, path string, before bool) {
+	if op != "tableCreate" || before {
+		return
+	}
+	in.mu.Lock()
+	if !in.armed || !strings.HasPrefix(path, in.root) ||
+		!(strings.Contains(path, "/segment/month/") || strings.Contains(path, "/segment/year/")) {
+		in.mu.Unlock()
+		return
+	}
+	n, fire := in.count, in.fire
+	in.count++
+	in.mu.Unlock()
+	fire(n) // the injected flush creates tables itself (source, metadata, index): not held under the mutex
+}
+
+func (in *injector) arm(root string, fire func(n int)) {
+	in.mu.Lock()
+	defer in.mu.Unlock()
+	in.armed, in.root, in.count, in.fire = true, root, 0, fire
+}
+
+func (in *injector) disarm() {
+	in.mu.Lock()
+	defer in.mu.Unlock()
+	in.armed, in.fire = false, nil
+}
+
+// recTB records the first failure instead of failing: the injected step runs on the rollup
+// job's goroutine, where a test failure (a panic of the test library) would kill the process.
+type recTB struct {
+	inner tb
+	msg   string
+}
+
+func (r *recTB) Helper()                         {}
+func (r *recTB) Logf(format string, args ...any) { r.inner.Logf(format, args...) }
+func (r *recTB) Fatalf(format string, args ...any) {
+	if r.msg == "" {
+		r.msg = fmt.Sprintf(format, args...)
+	}
+	panic(softAbort{})
+}
+
+// inject runs the source-side step; the main goroutine is blocked in waitRollup meanwhile.
+func (e *env) inject(in inject) (failure string) {
+	rec := &recTB{inner: e.t}
+	old := e.t
+	e.t = rec
+	defer func() {
+		e.t = old
+		if r := recover(); r != nil {
+			if _, ok := r.(softAbort); ok {
+				failure = rec.msg
+			} else {
+				failure = fmt.Sprintf("panic in the injected step: %v", r)
+			}
+		}
+	}()
+	e.write(in.Points)
+	e.flush([]int{in.Fam})
+	e.class("source flush committed while a rollup job was merging")
+	if in.Fam == in.JobFam {
+		e.class("source flush of the SAME family committed while its rollup job was merging")
+	}
+	if in.At > 0 {
+		e.class("source flush committed between the two target merges of a rollup job")
+	}
+	return ""
+}
+
 // ---- rollup step -----------------------------------------------------------------------------------
 
 func (e *env) allFiles() (rs []filePoints) {
@@ -951,6 +1113,10 @@ func (e *env) rolledFiles() (rs []filePoints) {
 
 func (e *env) rollup(s step) {
 	sel := e.selected(s.Families)
+	jobStart := map[*famState]int{} // files of the family that are inputs of its job
+	for _, f := range sel {
+		jobStart[f] = len(f.pending)
+	}
 	if s.Crash != "" {
 		e.crashDir = e.dir + "-image"
 		e.crashKind = s.Crash
@@ -980,8 +1146,22 @@ func (e *env) rollup(s step) {
 	} else {
 		for _, f := range sel {
 			theImager.nextJob()
+			jobStart[f] = len(f.pending) // the job takes the files waiting now
+			var failure string
+			job := f.idx
+			theInjector.arm(e.dir, func(n int) {
+				for _, in := range s.Inject {
+					if in.JobFam == job && in.At == n && failure == "" {
+						failure = e.inject(in)
+					}
+				}
+			})
 			kv.VerifRollup(f.df.Family())
 			waitRollup(f.df.Family())
+			theInjector.disarm()
+			if failure != "" {
+				e.fatalf("source-side step inside the rollup job of family %s %02d:00: %s", f.pos.Date, f.pos.Hour, failure)
+			}
 		}
 	}
 	if s.Crash != "" {
@@ -996,20 +1176,22 @@ func (e *env) rollup(s step) {
 		}
 	}
 	for _, f := range sel {
-		if len(f.pending) == 0 && f.rollups > 0 {
+		if jobStart[f] == 0 && f.rollups > 0 {
 			e.class("rollup repeated (no new source file)")
 			if e.reopened {
 				e.class("rollup repeated after reopen")
 			}
 		}
-		if len(f.pending) > 0 && len(f.rolled) > 0 {
+		if jobStart[f] > 0 && len(f.rolled) > 0 {
 			e.class("more flushes then rollup")
 		}
-		if len(f.pending) > 0 && e.reopened {
+		if jobStart[f] > 0 && e.reopened {
 			e.class("rollup after reopen with new files")
 		}
-		f.rolled = append(f.rolled, f.pending...)
-		f.pending = nil
+		// files flushed while the job was running are not its inputs: they keep waiting
+		n := jobStart[f]
+		f.rolled = append(f.rolled, f.pending[:n]...)
+		f.pending = append([]filePoints(nil), f.pending[n:]...)
 		f.rollups++
 	}
 }
@@ -1550,6 +1732,9 @@ func (e *env) runQueries() {
 func runPlan(t tb, p *plan) (classes []string, nontrivial bool) {
 	version.VerifSetFSHook(theImager.hook)
 	defer version.VerifSetFSHook(nil)
+	table.VerifSetFSHook(theInjector.hook)
+	defer table.VerifSetFSHook(nil)
+	defer theInjector.disarm()
 	dir, err := os.MkdirTemp("", "c04-")
 	if err != nil {
 		t.Fatalf("tempdir: %v", err)
@@ -1569,7 +1754,7 @@ func runPlan(t tb, p *plan) (classes []string, nontrivial bool) {
 		t.Fatalf("create database: %v", err)
 	}
 	for _, fp := range p.Families {
-		e.fams = append(e.fams, &famState{pos: fp})
+		e.fams = append(e.fams, &famState{pos: fp, idx: len(e.fams)})
 	}
 	e.openFamilies()
 	e.registerMetrics()
@@ -1616,7 +1801,7 @@ func runPlan(t tb, p *plan) (classes []string, nontrivial bool) {
 		}
 		for i, fp := range p.Families {
 			if len(byFam[i]) > 0 {
-				img.fams = append(img.fams, &famState{pos: fp})
+				img.fams = append(img.fams, &famState{pos: fp, idx: i})
 			}
 		}
 		img.openFamilies()
@@ -1771,7 +1956,7 @@ func TestObservation_CompactedSourceFile(t *testing.T) {
 	rapid.Check(t, func(t *rapid.T) {
 		p := genPlan(t)
 		// keep the configuration, the families, the schema and the first (priming) write; then a second write
-		g := &stepGen{t: t, p: p, last: map[string]int{}, mem: map[int]bool{}, pend: map[int]bool{}}
+		g := &stepGen{t: t, p: p, last: map[string]int{}, mem: map[int]bool{}, pend: map[int]bool{}, onlyFam: -1}
 		second := g.commit(g.write())
 		p.Steps = []step{p.Steps[0], {Kind: "flush"}, second, {Kind: "flush"}, {Kind: "compact"}, {Kind: "rollup"}}
 		p.Queries = nil
@@ -1804,7 +1989,7 @@ func TestObservation_CompactedSourceFile(t *testing.T) {
 				t.Fatalf("create database: %v", err)
 			}
 			for _, fp := range p.Families {
-				e.fams = append(e.fams, &famState{pos: fp})
+				e.fams = append(e.fams, &famState{pos: fp, idx: len(e.fams)})
 			}
 			e.openFamilies()
 			e.registerMetrics()
